@@ -9,6 +9,17 @@ NOTE_COMMON = ("Trusted base: clang 14 parser/sema via libTooling (tools/ipqfact
                "computed from the current source of /repo only; nothing is executed. ")
 
 CLAIMS = {
+ "C03": dict(
+  technique="exhaustiveness of convergence tests over the unknown-type chain of Phreeqc::residuals + exact rational comparison of the balance residuals + loop-domain / operand agreement in calc_ss_fractions",
+  text=("C03 describes the fixed point of an inequality-constrained Newton iteration and is NOT decided as a whole. Decided is what the iteration may "
+        "call converged and how solid-solution fractions are formed: (a) every branch of the chain over unknown types in Phreeqc::residuals that "
+        "assigns residual[i] contains a test on it that sets converge = FALSE; (b) the exchange and surface balance residuals are x.moles - x.f "
+        "(defined amount minus occupied equivalents) and are tested relative to the defined amount, the pure-phase and solid-solution residuals are "
+        "x.f * ln 10 (type codes recovered from the set-up functions); (c) calc_ss_fractions sums the total and forms the fractions over the same "
+        "component list from the same clamped amount (negative -> positive minimum), stores moles/total and log10 of the same quotient, selects the "
+        "ideal model exactly when both Guggenheim parameters are zero, and ss_ideal sets log10 lambda = 0. NOT decided: SI = target / absent with "
+        "SI <= target, dissolve_only / precipitate_only / force_equality, non-ideal solid solutions, initial exchanger / surface compositions."),
+  note=NOTE_COMMON + "A partial claim labelled `other`: necessary conditions only; the equilibrium end state itself is a solver outcome."),
  "C01": dict(
   technique="exact rational-function comparison of the log K(T,P) formula and of paired read-out functions + reader/writer slot agreement on the log K record + unit discipline at every k_calc call site",
   text=("C01 as a whole is numerical and is NOT decided. Decided are the closed-form and table-agreement parts of three of its clauses: (a) 'the "
@@ -278,7 +289,6 @@ CLAIMS = {
 }
 
 NOT_APPLICABLE = {
- "C03": "equilibrium end-state (SI = target, phase present/absent, site and mole-fraction sums) is the fixed point of an inequality-constrained Newton iteration; only its numeric outcome can be judged",
 }
 PENDING = {}
 
